@@ -3,6 +3,7 @@ package stanza
 import (
 	"encoding/xml"
 	"errors"
+	"strconv"
 	"sync"
 )
 
@@ -200,8 +201,15 @@ func (SMFailed) Name() string {
 func (smf *SMFailed) UnmarshalXML(d *xml.Decoder, start xml.StartElement) error {
 	smf.XMLName = start.Name
 
-	// According to https://xmpp.org/rfcs/rfc3920.html#def we should have no attributes aside from the namespace
-	// which we don't use internally
+	// The only attribute defined for <failed/> is the optional "h" (XEP-0198, 5. Resumption)
+	for _, attr := range start.Attr {
+		if attr.Name.Local == "h" {
+			if h, err := strconv.ParseUint(attr.Value, 10, 0); err == nil {
+				v := uint(h)
+				smf.H = &v
+			}
+		}
+	}
 
 	// decode inner elements
 	for {
